@@ -227,6 +227,51 @@ func mutations() []string {
 	return out
 }
 
+// ---------- variable programs ----------
+
+// varAtoms: pipeline steps that mention variables in every syntactic position a statement can
+// take: bare, as function arguments, inside conditions, inside object values.
+func varAtoms() []string {
+	out := []string{"?", ".Individuals", ".Nodes", ".Name", "X", "Y", "Length", "First(1)", ".Nope"}
+	for _, a := range []string{"X", "Y", ".Name", ".Pointer", "?"} {
+		out = append(out, "Only("+a+` = "x")`)
+	}
+	out = append(out, "Only(X)", "Only(?)", "Only(.Pointer)")
+	for _, a := range []string{"X", "Y", ".", ".Individuals"} {
+		for _, b := range []string{"X", "Y", ".", ".Individuals"} {
+			out = append(out, "Combine("+a+", "+b+")")
+		}
+	}
+	for _, a := range []string{"X", "Y", ".Name"} {
+		out = append(out, "{ k: "+a+" }")
+	}
+	out = append(out, "NodesWithTagPath(X)", "First(X)", "MergeDocumentsAndIndividuals(X, Y)", "MergeDocumentsAndIndividuals(Document1, X)")
+	return out
+}
+
+func varPrograms() []string {
+	at := varAtoms()
+	var es []string
+	es = append(es, at...)
+	for _, a := range at {
+		for _, b := range at {
+			es = append(es, a+" | "+b)
+		}
+	}
+	var out []string
+	for _, e := range es {
+		out = append(out, "X is "+e+"; X", "X is "+e+"; X | Length")
+	}
+	for _, a := range at {
+		for _, b := range at {
+			for _, f := range []string{"X", "Y", "Combine(X, Y)", "X | Only(Y)"} {
+				out = append(out, "X is "+a+"; Y is "+b+"; "+f)
+			}
+		}
+	}
+	return out
+}
+
 var byteAlphabet = []byte{'.', '"', 'a', '1', '|', '(', ' ', 0xFF}
 
 // ---------- running ----------
@@ -291,6 +336,12 @@ func run(tier, unit string, r *vlib.Rec) {
 			r.Count("mutation")
 			runQuery(r, ms[idx], docSets, &after)
 		}
+	case "vars":
+		vp := varPrograms()
+		for idx := lo; idx < hi; idx++ {
+			r.Count("vars")
+			runQuery(r, vp[idx], [][]string{{"empty"}, {"family"}, {"family", "faulted"}}, &after)
+		}
 	case "bytes":
 		n, _ := strconv.Atoi(p[1])
 		buf := make([]byte, n)
@@ -318,6 +369,7 @@ func plan(tier string) []string {
 	}
 	out = append(out, vlib.Chunks("chains", int64(len(chains())), 300)...)
 	out = append(out, vlib.Chunks("mutations", int64(len(mutations())), 100)...)
+	out = append(out, vlib.Chunks("vars", int64(len(varPrograms())), 400)...)
 	for n := 0; n <= 4; n++ {
 		out = append(out, vlib.Chunks(fmt.Sprintf("bytes:%d", n), gen.Pow(len(byteAlphabet), n), 2000)...)
 	}
@@ -341,7 +393,7 @@ func main() {
 	vlib.Main(&vlib.Check{
 		ID:    "C15",
 		Level: "exploration",
-		Rule: "cases: (a) every sequence of <=k tokens (k=3 quick, 4 thorough) over a 36-token alphabet joined by spaces; (b) every accessor chain of length <=3 over all exported zero-argument methods and fields reachable by reflection from *Document (computed at run time), each followed by each of 15 function suffixes (depth-3 chains: plain and '?' only in the quick tier); (c) 14 documented / adversarial examples with every single-token deletion, duplication and adjacent swap; (d) every byte string of length <=4 over {. \" a 1 | ( space 0xFF}; evaluated on {empty, bare individual, family, faulted} documents singly and in pairs; every value goes through the json, pretty-json, csv, gedcom and html formatters. " +
+		Rule: "cases: (a) every sequence of <=k tokens (k=3 quick, 4 thorough) over a 36-token alphabet joined by spaces; (b) every accessor chain of length <=3 over all exported zero-argument methods and fields reachable by reflection from *Document (computed at run time), each followed by each of 15 function suffixes (depth-3 chains: plain and '?' only in the quick tier); (c) 14 documented / adversarial examples with every single-token deletion, duplication and adjacent swap; (c2) every program 'X is E; X [| Length]' with E a pipeline of <=2 steps over 40 steps that mention variables in every position (bare, function argument, condition, object value), and every 'X is A; Y is B; F' with single steps A, B and four final forms; (d) every byte string of length <=4 over {. \" a 1 | ( space 0xFF}; evaluated on {empty, bare individual, family, faulted} documents singly and in pairs; every value goes through the json, pretty-json, csv, gedcom and html formatters. " +
 			"Non-trivial = queries that parse (evaluate to a value or an error); distinct by (query, documents).",
 		Assumptions: []string{
 			"a fresh engine and freshly decoded documents per case; panics are recovered in-process, a process death (stack overflow, out of memory) is attributed to the case announced just before it",
@@ -361,7 +413,7 @@ func main() {
 		},
 		WorkerInit: func() {},
 		Required: func(string) []string {
-			req := []string{"outcome:value", "outcome:syntax-error", "outcome:evaluate-error", "chain", "mutation", "bytes"}
+			req := []string{"outcome:value", "outcome:syntax-error", "outcome:evaluate-error", "chain", "mutation", "bytes", "vars"}
 			for _, t := range tokens {
 				req = append(req, "token:"+t)
 			}
